@@ -56,6 +56,17 @@ NATIVE_UNITS = {
     "library_witness": {"file": "src/interpreter/interpreter.rs", "source": "library_instances.rs",
                         "modpath": "interpreter::interpreter", "test": "verif_native_library_witness", "role": "witness",
                         "for_fns": ["eval_library_definition"]},
+    "tail_space_witness": {"file": "src/interpreter/interpreter.rs", "source": "tail_space.rs",
+                           "modpath": "interpreter::interpreter", "test": "verif_native_tail_space_witness", "role": "witness",
+                           "for_fns": ["eval_tail_expression", "eval_owned_tail_expression", "apply_procedure", "eval_procedure_call"]},
+    "apply_tail_known": {"file": "src/interpreter/interpreter.rs", "source": "tail_space.rs",
+                         "modpath": "interpreter::interpreter", "test": "verif_native_apply_tail_known", "role": "known",
+                         "finding": "apply-not-a-tail-call"},
+    "template_location_known": {"file": "src/interpreter/interpreter.rs", "source": "eval_location.rs",
+                                "modpath": "interpreter::interpreter", "test": "verif_native_template_location_known", "role": "known",
+                                "finding": "template-location"},
+    "after_error_witness": {"file": "src/interpreter/interpreter.rs", "source": "vector_builtins.rs",
+                            "modpath": "interpreter::interpreter", "test": "verif_native_after_error_witness", "role": "witness", "for_fns": []},
     "tail_arity_panic": {"file": "src/interpreter/interpreter.rs", "source": "tail_arity.rs",
                          "modpath": "interpreter::interpreter", "test": "verif_native_tail_arity_panic",
                          "role": "witness", "for_fns": ["apply_procedure"]},
